@@ -562,3 +562,65 @@ Example C05_ex_j4D_rejects :
   /\ j4D [(2%N, mkD (mkReg (mkSlot 0%N 0%N 0%N []) 2%N [] 0%Z [] None false) None [] false (Plain (BRaise EForbidden)) false)]
          (Resp 4500%N) None false [Body 2%N (CRes 0%N); Raised EForbidden] = true.
 Proof. exact ex_j4D_rejects. Qed.
+
+(* ---------------------------------------------------------------- second proof round: judge clause J5 at registration level
+   (Proofs/C05_j5.v) and the statement/table link for J4's source test (Proofs/C05_j4link.v) *)
+Require Import Verif.Proofs.C05_j5 Verif.Proofs.C05_j4link.
+
+(* judge_sound, clause J5 ("no stray policy call"), registration level: for EVERY registry state, table, decision table and
+   request the executable clause -- every policy call is about a permission some table entry closed over (its _secured_view,
+   or the inner view of an append-slash Not Found view) -- accepts the trace of the request *)
+Theorem C05_judge_j5_sound_D : forall R D tb q, j5D D (fst (router_call R D tb q)) = true.
+Proof. exact j5D_sound. Qed.
+Print Assumptions C05_judge_j5_sound_D.
+
+Theorem C05_gen_judge_j5_sound_D : forall R D tb q, j5D D (fst (gen_router R D tb q)) = true.
+Proof. exact gen_j5D_sound. Qed.
+Print Assumptions C05_gen_judge_j5_sound_D.
+
+(* what the clause says: it holds exactly when every policy call in the trace is on behalf of a table entry ... *)
+Theorem C05_j5D_iff : forall D tr,
+  j5D D tr = true <-> forall p c b, In (Permits p c b) tr -> on_behalf_b D p = true.
+Proof. exact j5D_iff. Qed.
+Print Assumptions C05_j5D_iff.
+
+(* ... so with a table in which nothing closed over a permission, a trace the clause accepts never asks the policy *)
+Theorem C05_j5D_unprotected : forall D tr,
+  (forall kd, In kd D -> closes_over_any (snd kd) = false) -> j5D D tr = true ->
+  forall p c b, ~ In (Permits p c b) tr.
+Proof. exact j5D_unprotected. Qed.
+Print Assumptions C05_j5D_unprotected.
+
+Example C05_ex_j5D_rejects :
+  j5D [] [Permits [118%N] (CRes 0%N) true] = false
+  /\ j5D [(2%N, mkD (mkReg (mkSlot 0%N 0%N 0%N []) 2%N [] 0%Z [] None true) (Some [118%N]) [] false (Plain BReturn) false)]
+         [Permits [118%N] (CRes 0%N) true; Body 2%N (CRes 0%N)] = true
+  /\ j5D [(2%N, mkD (mkReg (mkSlot 0%N 0%N 0%N []) 2%N [] 0%Z [] None true) (Some [118%N]) [] false (Plain BReturn) false)]
+         [Permits [101%N] (CRes 0%N) false] = false.
+Proof. exact ex_j5D_rejects. Qed.
+
+(* one-commit program within prog_ok: a table entry that is not the built-in view runs the body its statement declares *)
+Theorem C05_behave_link : forall irq ier iw prog rt d,
+  prog_ok prog ->
+  In (rt, d) (cs_D (commit (init_state irq ier iw) prog)) ->
+  N.leb (2 * builtin_tag) rt = false ->
+  stmt_behave prog (stag rt) = body_behave (d_body d).
+Proof. exact behave_link. Qed.
+Print Assumptions C05_behave_link.
+
+(* hence J4's program-text source test agrees with the registration-level one (C05_judge_j4_sound_D) on statement views *)
+Theorem C05_forbid_source_link : forall irq ier iw prog rt d c,
+  prog_ok prog ->
+  let s := commit (init_state irq ier iw) prog in
+  In (rt, d) (cs_D s) -> assocN rt (cs_D s) = Some d ->
+  N.leb (2 * builtin_tag) rt = false ->
+  forbid_source prog (Some (Body (stag rt) c)) = forbid_source_D (cs_D s) (Some (Body rt c)).
+Proof. exact forbid_source_link. Qed.
+Print Assumptions C05_forbid_source_link.
+
+Example C05_ex_behave_link :
+  prog_ok ex_prog2
+  /\ option_map (fun d => body_behave (d_body d)) (assocN 2%N (cs_D (commit (init_state 1%N 7%N 8%N) ex_prog2)))
+     = Some (stmt_behave ex_prog2 (stag 2%N))
+  /\ stmt_behave ex_prog2 (stag 2%N) = BRaise EBoom.
+Proof. exact ex_behave_link. Qed.
